@@ -259,5 +259,8 @@ func verifPar(a, b func()) {
 // exact type the code under test gives a counter).
 func verifSetInt[T ~int32 | ~uint32 | ~int64 | ~uint64 | ~int | ~uint](p *T, v uint64) { *p = T(v) }
 
+// verifBytesEqual: two byte slices of concrete length are equal (one term for the executor).
+func verifBytesEqual(a, b []byte) bool { return string(a) == string(b) }
+
 func verifResetLocks() {}
 func verifLockHookFrom(n int) {}
